@@ -637,7 +637,127 @@ def check_started(ctx, R="C14.started"):
     ctx.floor(R, n, 2, "calls between the running mark and the registration")
 
 
+
+SN = "scenic.core.sensors"
+TR = "scenic.syntax.translator"
+
+
+def check_recorders(ctx, R="C14.recorders"):
+    ctx.rule(
+        R,
+        "recorders carry nothing from one simulation into the next: a recorder object belongs to the compiled scenario and is reused "
+        "by every simulation, so each self.<attr> that its per-step method fills (append / add / extend / item store in recordValue) is "
+        "emptied on EVERY path through endRecording -- also when the recording is cancelled because the simulation was rejected or "
+        "failed -- or re-created in beginRecording",
+    )
+    model = ctx.model
+    base = model.cls(SN, "Recorder")
+    n = 0
+    for ci in model.classes.values():
+        if ci.module.name != SN or base not in model.mro(ci):
+            continue
+        filled = set()
+        for mn in ("recordValue", "_record"):
+            f = ci.methods.get(mn)
+            if f is None:
+                continue
+            for c in walk_local(f):
+                if isinstance(c, ast.Call) and isinstance(c.func, ast.Attribute) and c.func.attr in ("append", "add", "extend", "update", "insert") and isinstance(c.func.value, ast.Attribute) and unparse(c.func.value.value) == "self":
+                    filled.add(c.func.value.attr)
+                if isinstance(c, (ast.Assign, ast.AugAssign)):
+                    for t in c.targets if isinstance(c, ast.Assign) else [c.target]:
+                        if isinstance(t, ast.Subscript) and isinstance(t.value, ast.Attribute) and unparse(t.value.value) == "self":
+                            filled.add(t.value.attr)
+        for attr in sorted(filled):
+            n += 1
+            begin = model.find_method(ci, "beginRecording")
+            fresh = begin is not None and any(isinstance(a, ast.Assign) and any(unparse(t) == f"self.{attr}" for t in a.targets) for a in walk_local(begin[1]))
+            end = model.find_method(ci, "endRecording")
+            if fresh:
+                ctx.ok(R, begin[1], f"{ci.name}: self.{attr} is re-created when a recording begins")
+                continue
+            if end is None:
+                ctx.finding(R, ci.node, f"{ci.name}.{attr} never emptied", f"{ci.name} fills self.{attr} at every step but has no endRecording that empties it")
+                continue
+            leaky = []
+            for asm, env, ex in lib.enumerate_paths(end[1]):
+                if isinstance(ex, ast.Raise):
+                    continue
+                tr = env.get(lib.TRACE, ())
+                emptied = any(
+                    (isinstance(c, ast.Call) and isinstance(c.func, ast.Attribute) and c.func.attr == "clear" and unparse(c.func.value) == f"self.{attr}")
+                    or (isinstance(c, ast.Assign) and any(unparse(t) == f"self.{attr}" for t in c.targets))
+                    for st in tr
+                    if not isinstance(st, (ast.For, ast.While, ast.Try))
+                    for c in ast.walk(st)
+                )
+                if not emptied:
+                    leaky.append(asm)
+            if leaky:
+                ctx.finding(
+                    R,
+                    end[1],
+                    f"{end[0].name}.endRecording keeps self.{attr} on some path",
+                    f"{end[0].name}.endRecording does not empty self.{attr} on the path {dict(leaky[0]) or '{}'}: the recorder is reused by the next simulation of the scenario, whose "
+                    f"recording then starts with the values accumulated in a rejected / failed run",
+                )
+            else:
+                ctx.ok(R, end[1], f"{ci.name}: self.{attr} is emptied on every path through endRecording")
+    ctx.floor(R, n, 2, "attributes filled per step by recorder classes")
+
+
+def check_stop_order(ctx, R="C14.override"):
+    """part of C14.override: nested undo is last-in first-out"""
+    model = ctx.model
+    st = model.func(DS, "DynamicScenario._stop")
+    subs = [l for l in walk_local(st) if isinstance(l, ast.For) and unparse(l.iter) == "self._subScenarios" and isinstance(l.target, ast.Name) and any(isinstance(c, ast.Call) and unparse(c.func) == f"{l.target.id}._stop" for c in ast.walk(l))]
+    revs = [l for l in walk_local(st) if isinstance(l, ast.For) and "self._overrides" in unparse(l.iter) and any(isinstance(c, ast.Call) and isinstance(c.func, ast.Attribute) and c.func.attr == "_revert" for c in ast.walk(l))]
+    if not subs or not revs:
+        raise AnalysisError("shape not recognised: sub-scenario stopping / override reverting loops of DynamicScenario._stop")
+    if (subs[0].lineno, subs[0].col_offset) < (revs[0].lineno, revs[0].col_offset):
+        ctx.ok(R, revs[0], "a scenario undoes its own overrides after its sub-scenarios have undone theirs (last in, first out)")
+    else:
+        ctx.finding(
+            R,
+            revs[0],
+            "own overrides reverted before the sub-scenarios stop",
+            "DynamicScenario._stop reverts this scenario's overrides before stopping its sub-scenarios: a sub-scenario that overrode the same property saved the parent's overridden value and "
+            "writes it back afterwards, so the property keeps the parent's override after both scenarios have ended",
+        )
+
+
+def check_purge(ctx, R="C14.globals"):
+    """part of C14.globals: modules imported by a failed compilation are purged like those of a successful one"""
+    model = ctx.model
+    fn = model.func(TR, "_scenarioFromStream")
+    calls = [c for c in walk_local(fn) if isinstance(c, ast.Call) and dotted(c.func) == "purgeModulesUnsafeToCache"]
+    if not calls:
+        raise AnalysisError("shape not recognised: purgeModulesUnsafeToCache in _scenarioFromStream")
+    for c in calls:
+        in_finally = False
+        child = c
+        for a in ancestors(c):
+            if a is fn:
+                break
+            if isinstance(a, ast.Try) and any(any(child is y for y in ast.walk(x)) for x in a.finalbody):
+                in_finally = True
+            child = a
+        if in_finally:
+            ctx.ok(R, c, "Scenic modules imported while compiling are purged in a `finally`: also when the compilation fails")
+        else:
+            ctx.finding(
+                R,
+                c,
+                "module purge skipped on failure",
+                "_scenarioFromStream calls purgeModulesUnsafeToCache outside a `finally`: when a compilation fails, the Scenic modules it imported stay in sys.modules, and a later "
+                "compilation in the same process reuses them instead of recompiling (it does not behave as in a fresh process)",
+            )
+
+
 def check(ctx):
+    ctx.run(check_recorders)
+    ctx.run(check_stop_order)
+    ctx.run(check_purge)
     ctx.run(check_started)
     ctx.run(check_runstate)
     ctx.run(check_globals)
